@@ -99,18 +99,18 @@ func deABCase(out *Out, data []byte, tag string) {
 	b, kind := deAB(data)
 	out.Count("ab_de:" + kind)
 	if kind == "DOk" {
-		out.Case("ab_de", Bz(data), Con("DOk", abTerm(b)), tag)
+		out.Case("ab_de", Byt(data), Con("DOk", abTerm(b)), tag)
 	} else {
-		out.Case("ab_de", Bz(data), Con(kind), tag)
+		out.Case("ab_de", Byt(data), Con(kind), tag)
 	}
 }
 func deMomCase(out *Out, data []byte, tag string) {
 	m, kind := deMom(data)
 	out.Count("mom_de:" + kind)
 	if kind == "DOk" {
-		out.Case("mom_de", Bz(data), Con("DOk", momTerm(m)), tag)
+		out.Case("mom_de", Byt(data), Con("DOk", momTerm(m)), tag)
 	} else {
-		out.Case("mom_de", Bz(data), Con(kind), tag)
+		out.Case("mom_de", Byt(data), Con(kind), tag)
 	}
 }
 
@@ -123,18 +123,20 @@ func emitAB(out *Out, rng *rand.Rand, b *nom.AccountBlock, tag string, scalars b
 	pre := abPreimage(b)
 	out.Oracle(types.NewHash(pre) == hash, "preimage-shape", M{"block": t})
 	dh, dd := descHash(b), types.NewHash(b.Data)
-	out.Case("ab_preimage", Tup(bodyTerm(b), Bz(dh[:]), Bz(dd[:])), Bz(pre), tag)
+	out.Case("ab_preimage", Tup(bodyTerm(b), Byt(dh[:]), Byt(dd[:])), Byt(pre), tag)
 	// protobuf
 	data, err := b.Serialize()
 	if err != nil {
 		out.Oracle(false, "pb-serialize-error", M{"block": t})
 		return
 	}
-	out.Case("ab_ser", t, Bz(data), tag)
-	deABCase(out, data, tag)
+	// the model must produce these bytes, and the model's decoder must map them back to the block
+	// (the implementation's decoder is checked on the same bytes by the oracle below)
 	nonneg := b.Amount == nil || b.Amount.Sign() >= 0
+	out.Case("ab_ser", t, Tup(Byt(data), nonneg), tag)
+	b2, kind := deAB(data)
+	out.Count("ab_de:" + kind)
 	if nonneg {
-		b2, kind := deAB(data)
 		ok := kind == "DOk" && same(abTerm(b2), t) && b2.ComputeHash() == hash
 		out.Oracle(ok, "pb-roundtrip", M{"block": t})
 	}
@@ -171,13 +173,13 @@ func emitAB(out *Out, rng *rand.Rand, b *nom.AccountBlock, tag string, scalars b
 		var m map[string]interface{}
 		if json.Unmarshal(js, &m) == nil {
 			if s, ok := m["amount"].(string); ok && b.Amount != nil {
-				out.Case("print_dec", Big(b.Amount), Bz([]byte(s)), tag)
+				out.Case("print_dec", Big(b.Amount), Byt([]byte(s)), tag)
 			}
 			if s, ok := m["hash"].(string); ok {
-				out.Case("hex_enc", Bz(b.Hash[:]), Bz([]byte(s)), tag)
+				out.Case("hex_enc", Byt(b.Hash[:]), Byt([]byte(s)), tag)
 			}
 			if s, ok := m["nonce"].(string); ok {
-				out.Case("hex_enc", Bz(b.Nonce.Data[:]), Bz([]byte(s)), tag)
+				out.Case("hex_enc", Byt(b.Nonce.Data[:]), Byt([]byte(s)), tag)
 			}
 		}
 	}
@@ -192,16 +194,16 @@ func emitMom(out *Out, rng *rand.Rand, m *nom.Momentum, tag string) {
 	cb := contentBytes(m.Content)
 	out.Oracle(string(cb) == string(m.Content.Bytes()), "content-bytes-shape", M{"momentum": t})
 	ch := types.NewHash(cb)
-	out.Case("mom_preimage", Tup(t, Bz(dd[:]), Bz(ch[:])), Bz(pre), tag)
-	out.Case("content_bytes", contentTerm(m.Content), Bz(m.Content.Bytes()), tag)
+	out.Case("mom_preimage", Tup(t, Byt(dd[:]), Byt(ch[:])), Byt(pre), tag)
+	out.Case("content_bytes", contentTerm(m.Content), Byt(m.Content.Bytes()), tag)
 	data, err := m.Serialize()
 	if err != nil {
 		out.Oracle(false, "pb-serialize-error", M{"momentum": t})
 		return
 	}
-	out.Case("mom_ser", t, Bz(data), tag)
-	deMomCase(out, data, tag)
+	out.Case("mom_ser", t, Tup(Byt(data), true), tag)
 	m2, kind := deMom(data)
+	out.Count("mom_de:" + kind)
 	out.Oracle(kind == "DOk" && same(momTerm(m2), t) && m2.ComputeHash() == hash, "pb-roundtrip", M{"momentum": t})
 	enc, err := rlp.EncodeToBytes(m)
 	ok := err == nil
@@ -379,27 +381,27 @@ func rHexString(rng *rand.Rand, n int) string {
 
 func scalarCases(out *Out, rng *rand.Rand) {
 	s := rDecString(rng)
-	out.Case("parse_dec", Bz([]byte(s)), Big(common.StringToBigInt(s)), "text")
+	out.Case("parse_dec", Byt([]byte(s)), Big(common.StringToBigInt(s)), "text")
 	z := rAmount(rng)
 	if rng.Intn(3) == 0 {
 		z = new(big.Int).Neg(z)
 	}
-	out.Case("print_dec", Big(z), Bz([]byte(z.String())), "bigint")
+	out.Case("print_dec", Big(z), Byt([]byte(z.String())), "bigint")
 	out.Oracle(common.StringToBigInt(z.String()).Cmp(z) == 0, "decimal-roundtrip", M{"z": Big(z)})
-	out.Case("big32", Big(z), Bz(common.BigIntToBytes(z)), "bigint")
+	out.Case("big32", Big(z), Byt(common.BigIntToBytes(z)), "bigint")
 	hs := rHexString(rng, 32)
 	if h, err := types.HexToHash(hs); err == nil {
-		out.Case("parse_hash", Bz([]byte(hs)), Some(Bz(h[:])), "ok")
+		out.Case("parse_hash", Byt([]byte(hs)), Some(Byt(h[:])), "ok")
 		out.Oracle(h.String() == strings.ToLower(hs), "hash-hex-roundtrip", M{"s": hs})
 	} else {
-		out.Case("parse_hash", Bz([]byte(hs)), None(), "refused")
+		out.Case("parse_hash", Byt([]byte(hs)), None(), "refused")
 	}
 	ns := rHexString(rng, []int{8, 8, 8, 7, 9, 0}[rng.Intn(6)])
 	var nn nom.Nonce
 	if err := nn.UnmarshalText([]byte(ns)); err == nil {
-		out.Case("parse_nonce", Bz([]byte(ns)), Some(Bz(nn.Data[:])), "ok")
+		out.Case("parse_nonce", Byt([]byte(ns)), Some(Byt(nn.Data[:])), "ok")
 	} else {
-		out.Case("parse_nonce", Bz([]byte(ns)), None(), "refused")
+		out.Case("parse_nonce", Byt([]byte(ns)), None(), "refused")
 	}
 }
 
